@@ -756,6 +756,9 @@ class Evaluator(object):
             right = self.expr(c, env)
             if isinstance(left, Unknown) or isinstance(right, Unknown):
                 self.err(e, 'comparison with unknown')
+            if isinstance(op, (ast.In, ast.NotIn)) and isinstance(
+                    right, (Sym, Obj)):
+                self.err(e, 'membership in an object outside the model')
             if isinstance(op, ast.Eq):
                 r = left == right
             elif isinstance(op, ast.NotEq):
